@@ -43,6 +43,12 @@ class C04(Check):
                           Entry(b"a1d", txt * 2, method=8, password=b"pw", aes=(1, 3, bytes(range(16))))], b"pw"))
         S.append(("ae2", [Entry(b"a2", txt, password=b"pw", aes=(2, 2, bytes(range(12)))),
                           Entry(b"a2d", txt * 2, method=8, password=b"pw", aes=(2, 3, bytes(range(16))))], b"pw"))
+        # unencrypted entries that carry a (meaningless) WinZip-AES extra record marked AE-2: the AE-2 exemption from the
+        # CRC check belongs to entries that are actually AES-encrypted, not to whatever the extra field claims
+        import struct
+        aesx = lambda m: struct.pack("<HHH2sBH", 0x9901, 7, 2, b"AE", 3, m)
+        # (in the local header only: with the record in the central directory the seekable reader asks for a password)
+        S.append(("fake-ae2-local", [Entry(b"g0", txt, extra_local=aesx(0)), Entry(b"g8", txt * 2, method=8, extra_local=aesx(8))], None))
         return S
 
     def gen(self):
